@@ -20,7 +20,7 @@ import Driver.C20
 open Lean
 
 def handler (k : String) (j : Json) : Json :=
-  if k == "store" then Driver.Store.runCase j else
+  if k == "store" || k == "c04j" then Driver.Store.runCase j else
     if k == "c02" || k.startsWith "c02:" then Driver.C02.runCase j else
     if k == "c03" || k.startsWith "c03:" then Driver.C03.runCase j else
     if k == "c05" || k.startsWith "c05:" then Driver.C05.runCase j else
